@@ -2062,6 +2062,8 @@ class DynamicSpaceImpl(BaseSpaceImpl):
         cache=None
     ):
         self._dynbase = base
+        # Changes of the base are notified only once its namespace is fresh
+        base.namespace
         base._dynamic_subs.append(self)
         self._init_root(parent)
         if cache:
